@@ -362,7 +362,7 @@ Qed.
 
 (* the plain logs after every prefix of a model run *)
 Lemma run_states ops : forall (st : xstate) s,
-  R xfilter st s -> Forall op_ok ops ->
+  R xfilter st s -> Forall op_okb ops ->
   exists states, spec_states s (entries ops (snd (run xfilter [] x_may x_add true st ops))) = Some states
     /\ length states = length (run_kvs st ops)
     /\ forall j, (j < length states)%nat -> Rkv (nth_or [] j (run_kvs st ops)) (nth_or as_init j states).
@@ -396,7 +396,7 @@ Definition model_crash (kvss : list kvs) (c : crash) : Prop :=
   end.
 
 Theorem c09_monitor_zero_on_model ops crashes kvfinal :
-  Forall op_ok ops -> Forall (model_crash (run_kvs xinit ops)) crashes ->
+  Forall op_okb ops -> Forall (model_crash (run_kvs xinit ops)) crashes ->
   C09_monitor (C09Case (C07Case true (entries ops (snd (xrun true ops))) kvfinal) crashes) = 0.
 Proof.
   intros Hok Hcr. unfold C09_monitor. cbn [c9_hist c_steps c9_crashes]. unfold xrun, xinit in *.
